@@ -6,12 +6,17 @@ import (
 	"fmt"
 	"go/ast"
 	"go/parser"
+	"go/printer"
 	"go/token"
+	"go/types"
 	"os"
 	"path/filepath"
+	"sort"
 	"strconv"
 	"strings"
 	"text/template/parse"
+
+	"golang.org/x/tools/go/packages"
 )
 
 func init() { subcommands["trans"] = cmdTrans }
@@ -39,6 +44,9 @@ func cmdTrans(args []string) {
 	skel, err := tr.skeletons()
 	must(err)
 	must(writeIfChanged(filepath.Join(*out, "Skeletons.v"), skel))
+	sites, err := tr.siteLists()
+	must(err)
+	must(writeIfChanged(filepath.Join(*out, "Sites.v"), sites))
 }
 
 type translator struct {
@@ -336,4 +344,64 @@ func emitArg(a parse.Node) string {
 		return "EStr " + coqStr(a.Text)
 	}
 	return "EUnknown " + coqStr(a.String())
+}
+
+// ---- site lists (need type information) ----
+
+func (tr *translator) siteLists() ([]byte, error) {
+	cfg := &packages.Config{
+		Mode: packages.NeedName | packages.NeedFiles | packages.NeedSyntax | packages.NeedTypes | packages.NeedTypesInfo,
+		Dir:  tr.repo,
+	}
+	pkgs, err := packages.Load(cfg, ".", "./pkg/moq", "./internal/registry", "./internal/template")
+	if err != nil {
+		return nil, err
+	}
+	var ranges, effects []string
+	effectPkgs := map[string]bool{"os": true, "io/ioutil": true, "os/exec": true, "syscall": true, "io/fs": true}
+	for _, p := range pkgs {
+		for _, f := range p.Syntax {
+			fname := p.Fset.Position(f.Pos()).Filename
+			rel, _ := filepath.Rel(tr.repo, fname)
+			if strings.HasSuffix(rel, "_test.go") {
+				continue
+			}
+			var fn string
+			ast.Inspect(f, func(n ast.Node) bool {
+				switch n := n.(type) {
+				case *ast.FuncDecl:
+					fn = n.Name.Name
+				case *ast.RangeStmt:
+					if tv, ok := p.TypesInfo.Types[n.X]; ok {
+						if _, isMap := tv.Type.Underlying().(*types.Map); isMap {
+							ranges = append(ranges, rel+":"+fn+":"+tr.normNodeFset(p.Fset, n.X))
+						}
+					}
+				case *ast.CallExpr:
+					if sel, ok := n.Fun.(*ast.SelectorExpr); ok {
+						if id, ok := sel.X.(*ast.Ident); ok {
+							if pn, ok := p.TypesInfo.Uses[id].(*types.PkgName); ok && effectPkgs[pn.Imported().Path()] {
+								effects = append(effects, rel+":"+fn+":"+pn.Imported().Path()+"."+sel.Sel.Name)
+							}
+						}
+					}
+				}
+				return true
+			})
+		}
+	}
+	sort.Strings(ranges)
+	sort.Strings(effects)
+	var b bytes.Buffer
+	b.WriteString("(* REGENERATED from /repo's source by `vh trans` on every run (go/types). Do not edit. *)\n")
+	b.WriteString("From Moq Require Import Strs.\n\n")
+	fmt.Fprintf(&b, "(* every `range` over a map-typed expression in non-test code: the only sources of\n   nondeterminism in moq *)\nDefinition map_range_sites : list string :=\n  %s.\n\n", coqStrList(ranges))
+	fmt.Fprintf(&b, "(* every call into os, io/ioutil, os/exec, syscall, io/fs in non-test code *)\nDefinition fs_effect_sites : list string :=\n  %s.\n", coqStrList(effects))
+	return b.Bytes(), nil
+}
+
+func (tr *translator) normNodeFset(fset *token.FileSet, n ast.Node) string {
+	var b bytes.Buffer
+	printer.Fprint(&b, fset, n)
+	return strings.Join(strings.Fields(b.String()), " ")
 }
